@@ -173,7 +173,10 @@ def evaluate__name_related_functions(self: XPathFunction, context: ta.ContextTyp
 
     symbol = self.symbol
     if symbol == 'name':
-        node_name = arg.node_name
+        try:
+            node_name = arg.node_name
+        except ValueError as err:
+            raise self.error('FOCA0002', err) from None
         if node_name is None:
             return ''
         return node_name.qname
@@ -182,7 +185,10 @@ def evaluate__name_related_functions(self: XPathFunction, context: ta.ContextTyp
     elif self.parser.version == '1.0':
         return '' if not name or name[0] != '{' else name.split('}')[0][1:]
     else:
-        return AnyURI('') if not name or name[0] != '{' else AnyURI(name.split('}')[0][1:])
+        try:
+            return AnyURI('') if not name or name[0] != '{' else AnyURI(name.split('}')[0][1:])
+        except ValueError as err:
+            raise self.error('FORG0001', err) from None
 
 
 ###
